@@ -840,7 +840,7 @@ def correspond(res, n):
                 rule='worker: corpus + enumerated boundary cases (every behaviour x quota None/1..5 x N-1/N/N+1 jobs x '
                      'handshake on/off (quick tier: quotas None/1/2/5), refusal in every position, memory readings around the limit, every receive event '
                      'on the job pipe and in the SYN wait, invalid quotas, counter reached at poll 0/1/299/never) + seeded '
-                     'random scripts of 0..30 jobs; parent: all event lists up to length %d over 6 events x 16 callback '
+                     'random scripts of 0..30 jobs; parent: all event lists up to length %d over 7 events x 16 callback '
                      'configurations + random lists + streams derived from the real worker outputs with cancellations '
                      'woven in; worker also over ONE shared SYN stream (60 %% of handshake scripts), 59..130 empty SYN polls '
                      'before a late answer, answers sent twice; closed handshake cases (real workloop || real ResultHandler + one '
